@@ -448,6 +448,7 @@ impl<'a> SomeCk<'a> {
             || (t.starts_with("letSome(") && t.ends_with("=self.window[0]"))
             || t.starts_with("matches!(self.window[0],Some(")
             || t == "self.is_identifier_continuation()"
+            || t.contains("is_digit_of_radix(self.window[0],")
             || (t.starts_with("letSome(") && t.ends_with("=self.peek()"))
             || self.some_bools.contains(&t.text)
     }
@@ -494,7 +495,7 @@ impl<'a> SomeCk<'a> {
                     // is this call the receiver of an unwrap? handled by the parent via `known` passed in
                     return false;
                 }
-                if mc.method == "then" && self.some_bools.contains(&recv) && mc.args.len() == 1 {
+                if mc.method == "then" && (self.some_bools.contains(&recv) || recv.contains("is_digit_of_radix(self.window[0],")) && mc.args.len() == 1 {
                     if let syn::Expr::Closure(c) = &mc.args[0] {
                         self.expr(&c.body, true);
                         return false;
@@ -648,7 +649,7 @@ pub fn check_dominance_cfg(block: &syn::Block, fname: &str, unwrap_recv: &str, c
                 if mc.method == w.ck.consumer.1 && recv == w.ck.consumer.0 {
                     return false;
                 }
-                if mc.method == "then" && w.ck.some_bools.contains(&recv) && mc.args.len() == 1 {
+                if mc.method == "then" && (w.ck.some_bools.contains(&recv) || recv.contains("is_digit_of_radix(self.window[0],")) && mc.args.len() == 1 {
                     if let syn::Expr::Closure(c) = &mc.args[0] {
                         go_expr(w, &c.body, true);
                         return false;
